@@ -842,6 +842,14 @@ pub fn run_pairs(count: usize) -> Report {
             }
         }
         // ---- C06: weighted problem vs its row scaled unweighted twin (model rows and data pre-multiplied)
+        // every other weighted instance gets a zero and a negative weight
+        let mut base = base;
+        if let Some(w) = base.w.as_mut() {
+            if i % 4 == 1 && w.len() > 8 {
+                w[3] = 0.0;
+                w[7] = -w[7];
+            }
+        }
         if let Some(w) = base.w.clone() {
             let mut twin = base.clone();
             twin.w = None;
